@@ -88,8 +88,14 @@ def build_df(ds, rows, layout, rng=None):
         random.Random(layout["row_perm"]).shuffle(rows)
     unmatched = False
     if wide is None:
-        data = {cols[i]: [r[0][i] for r in rows] for i in keep}
+        # (labels_as_str: the labels of integer-typed dimensions stand in the table as text, as after reading an untyped file)
+        as_str = lambda i, x: str(x) if layout.get("labels_as_str") and ds[i].get("dtype") == "int" else x
+        data = {cols[i]: [as_str(i, r[0][i]) for r in rows] for i in keep}
         data[vname] = [np.nan if r[1] is None else float(r[1]) for r in rows]
+        for cname, kind in layout.get("extra_value_cols", []):
+            # further columns that are neither a dimension nor an item: empty throughout, a copy, or other numbers
+            data[cname] = [np.nan if kind == "nan" else (v if kind == "copy" else (v if isinstance(v, float) and v != v else 2 * v + 1)) for v in data[vname]]
+            unmatched = True
         df = pd.DataFrame(data)
         idx_cols = [cols[i] for i in keep]
         pipeline = [[list(r[0]), r[1]] for r in rows]
